@@ -74,14 +74,28 @@ def sched_cases(rng, n):
     return cases
 
 
-def corpus_cases():
-    cases = []
-    for fid in ("F10", "F11", "F33"):
-        p = os.path.join(FINDINGS, fid + ".json")
+def open_findings():
+    """ids of findings recorded as `open` for this property (known_findings.json, and — until the main
+    agent has merged it — notes/findings-spell.json)"""
+    out = {}
+    for rel in ("known_findings.json", os.path.join("notes", "findings-spell.json")):
+        p = os.path.join(core.ROOT, rel)
         if os.path.exists(p):
-            for c in json.load(open(p)).get("spelling_cases", []):
-                cases.append({"project": {"corpus": fid}, "corpus": fid,
-                              "spellings": [{"kind": s["kind"], "text": s["text"], "back": s.get("back")} for s in c["spellings"]]})
+            for f in json.load(open(p)).get("findings", []):
+                if f.get("property") == "C15" and f.get("status") == "open":
+                    out.setdefault(f["id"], f)
+    return out
+
+
+def corpus_cases():
+    """witnesses of every finding that has spelling cases; they run first, in every tier"""
+    cases = []
+    for fn in sorted(os.listdir(FINDINGS)):
+        fid = fn[:-5]
+        d = json.load(open(os.path.join(FINDINGS, fn)))
+        for c in d.get("spelling_cases", []):
+            cases.append({"project": {"corpus": fid}, "corpus": fid,
+                          "spellings": [{"kind": s["kind"], "text": s["text"], "back": s.get("back")} for s in c["spellings"]]})
     return cases
 
 
@@ -148,10 +162,10 @@ def run(chk):
     # (a) streams, corpus first
     corp = corpus_lines()
     n_res = 1500 if quick else 30000
-    d, model, _ = chk.differential("resolve", corp["resolve"] + resolve_lines(rng, n_res))
+    rl = corp["resolve"] + resolve_lines(rng, n_res)
+    d, model, _ = chk.differential("resolve", rl)
     dis_all += d
-    nontrivial = set(l for l, m in zip(corp["resolve"] + [], model) if m != "none")
-    resolved_some = sum(1 for m in model if m.startswith("some"))
+    resolved_some = len({l for l, m in zip(rl, model) if m.startswith("some")})     # distinct requests that resolve
     d, model_d, _ = chk.differential("deps", corp["deps"] + ["deps " + G.jtok(G.gen_deps_case(rng)) for _ in range(400 if quick else 8000)])
     dis_all += d
     d, _, _ = chk.differential("strip", ["strip " + G.hexs(G.gen_strip_text(rng)) for _ in range(1500 if quick else 30000)])
@@ -162,9 +176,29 @@ def run(chk):
     mlines, skipped = macro_lines(chk, texts, 3000)
     d, model_m, _ = chk.differential("macro", corp["macro"] + mlines)
     dis_all += d
+    # the size test at its boundary: bound = length of the result, and one less
+    blines = []
+    for l, m in zip(corp["macro"] + mlines, model_m):
+        tok = l.split(" ")
+        if m.startswith("ok x") and "247b" in tok[2] and len(blines) < (400 if quick else 6000):
+            n = (len(m) - 4) // 2
+            if n >= 1:
+                blines.append(" ".join([tok[0], str(n)] + tok[2:]))
+                blines.append(" ".join([tok[0], str(n - 1)] + tok[2:]))
+    d, model_b, _ = chk.differential("macro_boundary", blines)
+    dis_all += d
+    chk.cov["streams"]["macro_boundary"]["too_large"] = sum(1 for m in model_b if m == "too-large")
     chk.cov["streams"]["macro"]["skipped_invalid_date"] = skipped
     chk.cov["streams"]["macro"]["too_large"] = sum(1 for m in model_m if m == "too-large")
     chk.cov["streams"]["resolve"]["resolved"] = resolved_some
+
+    if not quick:
+        # the F14 witness against the bound the code ships with (implementation only; guarded)
+        w = junline(chk.impl.run([jline({"op": "spell_macro_default", "text": "macro a [${a} ${a}]\n${a}\n"})], jobs=1)[0])
+        chk.cov["f14_default_bound"] = w
+        chk.cov["evaluations"] += 1
+        if w.get("outcome") != "MacroExpansionError":
+            dis_all.append({"stream": "macro_default_bound", "input": "macro a [${a} ${a}] / ${a}", "model": "too-large", "impl": w})
 
     # (b) metamorphic oracle on the real code
     cases = corpus_cases() + sched_cases(rng, 120 if quick else 2500)
@@ -186,6 +220,15 @@ def run(chk):
         if bad:
             suspects.append(c)
     found = []
+    known = open_findings()
+    known_hit = {}
+    for c in list(suspects):
+        if c.get("corpus") in known:
+            known_hit.setdefault(c["corpus"], []).append(c)
+            suspects.remove(c)
+    for fid, f in sorted(known.items()):
+        if fid in known_hit:
+            chk.known_finding(fid, f.get("short") or f.get("what_fails", "")[:200])
     if suspects:
         # confirm in fresh interpreters (process-global state must not be what differs)
         results2, nrun2 = run_sched(chk, suspects, fresh=True)
@@ -201,12 +244,13 @@ def run(chk):
     found.sort(key=lambda f: len(json.dumps(f[1]["project"])))
     chk.cov["metamorphic"] = {"projects": len(cases), "spellings_per_project": len(G.KINDS), "runs": nrun,
                               "reference_errors": errors, "scheduled_tasks_in_references": sched_tasks,
-                              "suspects": len(suspects), "confirmed": len(found)}
+                              "suspects": len(suspects), "confirmed": len(found),
+                              "open_findings_reproduced": sorted(known_hit)}
     chk.cov["distinct_nontrivial"] = len(distinct) + resolved_some
     chk.cov["rule"] = ("metamorphic: random abstract projects (2-7 tasks nested <=3 deep, 1-3 resources, 0-1 shift, leaves, priorities, "
                        "DAG of dependencies with gapduration/onstart), each rendered in %d spellings %s and scheduled by the real code; "
-                       "non-trivial = distinct abstract projects whose reference spelling schedules at least one task, plus resolve-stream "
-                       "requests that resolve to a task; streams: resolve/deps/strip/mdefs/macro compare the Lean driver with the "
+                       "non-trivial = distinct abstract projects whose reference spelling schedules at least one task, plus distinct "
+                       "resolve-stream requests that resolve to a task; streams: resolve/deps/strip/mdefs/macro compare the Lean driver with the "
                        "implementation on the same request lines" % (len(G.KINDS), G.KINDS))
     chk.cov["exhaustive"] = False
     chk.assumptions += [
@@ -215,8 +259,8 @@ def run(chk):
         "${projectstart}/${projectend}/${now}/${today} are environment inputs of the macro model (taken from the implementation's own "
         "_extract_project_dates; the check fails if they differ from what the request states)",
         "macro texts are ASCII; dates that datetime.strptime rejects are skipped (crash class belongs to C11)",
-        "text moved into macros never contains the project header, brackets, `$`, or block-comment delimiters; macro calls are "
-        "never placed inside comments",
+        "text moved into macros never contains the project header, brackets, `$`, or block-comment delimiters (open finding F35 "
+        "covers the header); generated comments never contain `${` or a macro definition (open finding F34)",
         "one scenario; dependency lists are observed before attribute inheritance in the deps stream"]
     if found:
         chk.cov["samples"].append({"stream": "spellings", "what": found[0][0]})
@@ -228,9 +272,14 @@ def run(chk):
 
 def replay(chk, rep):
     """re-run a replay file: the stored spellings (oracle) or the stored stream request"""
+    chk.obligations(THEOREM_FILES)
+    chk.cov["rule"] = "replay of one stored case"
     if rep.get("stream") == "spellings":
         case = {"project": rep.get("project"), "spellings": rep["spellings"]}
-        results, _ = run_sched(chk, [case], fresh=True)
+        results, n = run_sched(chk, [case], fresh=True)
+        chk.cov["evaluations"] += n
+        chk.cov["distinct_nontrivial"] = 1
+        chk.cov["samples"].append({"stream": "spellings", "kinds": [sp["kind"] for sp in case["spellings"]]})
         bad = compare_case(case, results[0])
         if bad:
             chk.violation(classify(case, bad), {"stream": "spellings", "project": case["project"], "differences": bad,
